@@ -1,10 +1,14 @@
-"""contracts.registry — every function contract by qualified name."""
+"""contracts.registry — every function contract by qualified name (used by ./check --replay)."""
 
 
 def all_contracts():
     out = {}
-    from . import lib_array, lib_string
-    for mod in (lib_array, lib_string):
+    from . import lib_array, lib_string, lib_cmp, lib_math, lib_datetime, value_c, runtime_c, parser_c, parse_script_c, options_c
+    for mod in (lib_array, lib_string, lib_cmp, lib_math, lib_datetime):
         for c in mod.LIB:
             out[c.qual] = c
+    for c in (value_c.VALUE_COMPARE, value_c.VALUE_PARSE_DATETIME, runtime_c.EVALUATE_EXPRESSION, runtime_c.EXECUTE_SCRIPT_HELPER,
+              runtime_c.SCRIPT_FUNCTION, runtime_c.EXECUTE_SCRIPT, parser_c.PARSE_UNARY, parser_c.PARSE_BINARY,
+              parse_script_c.PARSE_SCRIPT_BODY, options_c.URL_FILE_RELATIVE_IMPL):
+        out[c.qual] = c
     return out
